@@ -325,6 +325,51 @@ def canon_model(c):
     return c
 
 
+# ---------------------------------------------------------------- the run-level statement as an oracle
+
+def in_f7_class(sc):
+    """some test group has selected members with different threads-required (finding F7, C08)"""
+    ws = {}
+    for t in g.selected(sc):
+        grp = g.group_of(sc, t)
+        if grp is not None:
+            ws.setdefault(grp, set()).add(g.weight(sc, t))
+    return any(len(v) > 1 for v in ws.values())
+
+
+def oracle_complete(sc, res, a):
+    """C02_complete_if_not_cancelled read off the real run: nothing announced a cancellation => every
+    selected test exactly one TestStarted and one TestFinished, every unselected one exactly one
+    TestSkipped, finished_count = initial_run_count = |selected|, exit status 0 iff every last attempt
+    passed (4 for an empty selection).  Uses the scenario and the emitted stream only."""
+    emitted = [e for s in a["steps"] for e in s["emitted"]]
+    if any(e["k"] in ("RunBeginCancel", "RunBeginKill") for e in emitted) or in_f7_class(sc):
+        return None
+    cfg = a["case"]["cfg"]
+    for t in cfg["sel"]:
+        n_st = sum(1 for e in emitted if e["k"] == "TestStarted" and e["test"] == t)
+        n_fin = sum(1 for e in emitted if e["k"] == "TestFinished" and e["test"] == t)
+        if (n_st, n_fin) != (1, 1):
+            return f"uncancelled run: selected test {t} has {n_st} TestStarted and {n_fin} TestFinished"
+    for t in cfg["unsel"]:
+        n_sk = sum(1 for e in emitted if e["k"] == "TestSkipped" and e["test"] == t)
+        n_other = sum(1 for e in emitted if e.get("test") == t and e["k"] != "TestSkipped")
+        if (n_sk, n_other) != (1, 0):
+            return f"uncancelled run: unselected test {t} has {n_sk} TestSkipped and {n_other} other events"
+    fin = [e for e in a["outside"] if e["kind"] == "RunFinished"]
+    if fin:
+        st = fin[-1]["stats"]
+        if not (st["finished_count"] == st["initial_run_count"] == len(cfg["sel"])):
+            return (f"uncancelled run: finished_count {st['finished_count']}, initial_run_count "
+                    f"{st['initial_run_count']}, selected {len(cfg['sel'])}")
+    if not any(s2 for s2 in sc["scripts"] if s2["exit"] != 0):
+        lasts = [e["statuses"][-1][0] in (0, 1) for e in emitted if e["k"] == "TestFinished"]
+        want = 4 if not cfg["sel"] else (0 if all(lasts) else 100)
+        if res["rc"] != want:
+            return f"uncancelled run: exit status {res['rc']}, expected {want} from the last attempts"
+    return None
+
+
 # ---------------------------------------------------------------- one run
 
 def analyse(sc, res):
@@ -381,6 +426,12 @@ def judge(sc, res, a, model_steps, model_wf):
             if got != want:
                 out.append(("corr:dispatcher-trace", "broken-obligation",
                             dict(clause=f"RunFinished statistics {got} differ from the model's final statistics {want}")))
+    # (iv) the conclusion of C02_complete_if_not_cancelled, on the real emitted stream of every run that
+    # was never cancelled (outside the class of finding F7, where the scheduler premise is a theorem)
+    if not why and coq_wf and not res["timed_out"] and not sc.get("tap_fail_at"):
+        w = oracle_complete(sc, res, a)
+        if w:
+            out.append(("oracle:run-complete", "counterexample", dict(clause=w)))
     # (iii) process exit status = run_exit of the received history (default no-tests policy)
     if not sc.get("tap_fail_at") and not res["timed_out"] and not why and coq_wf:
         want = model_wf[1]
@@ -456,6 +507,8 @@ def stage_trace(chk, tier, seed, n_quick=24, n_thorough=300, par=4, prop=None):
                         chk.count(f"trace_tie_{e['k']}={e['reason']}")
             if any(s["hs"] == "refused" for s in steps):
                 chk.count("trace_tie_runs_with_refusal")
+            if not any(e["k"] in ("RunBeginCancel", "RunBeginKill") for s in steps for e in s["emitted"]):
+                chk.count("trace_tie_uncancelled_runs")
             problems += judge(sc, res, a, a["model_steps"], a["model_wf"])
         for name, kind, detail in problems:
             ok = False
